@@ -504,10 +504,12 @@ def processLabels : List TEntry → List (Nat × String) → Labels → Int → 
 def mkInstr (op : Op) (rd rs1 rs2 : Nat) (raw : Int) (aux : Int := 0) : Instr :=
   { op := op, rd := rd, rs1 := rs1, rs2 := rs2, imm := storedImm op raw, aux := aux }
 
-/-- `_convert_label_or_imm` for the label form -/
+/-- `_convert_label_or_imm` for the label form (an odd displacement is rejected like an odd number) -/
 def labelDisp (ls : Labels) (l : String) (off : Int) (addr : Int) (k : Nat) (line : String) : Except AsmErr Int :=
   match lookupLabel ls l with
-  | some a => .ok (a + off - addr)
+  | some a =>
+    if (a + off - addr) % 2 ≠ 0 then .error (.parser "ParserOddImmediateException" k line)
+    else .ok (a + off - addr)
   | none => .error (.parser "ParserLabelException" k line)
 
 /-- instruction object for one grouped entry at address `addr` -/
